@@ -300,6 +300,67 @@ theorem extra_neighbours_own_urls (children : List Desc) (l : Desc) (m : Nat) (h
   unfold urlsByDigest; rw [hx]; simp only; rw [hxu]
 
 
+/-! ### the statements of the property, one by one (corollaries of the two round-trip theorems) -/
+
+/-- Same image reference and same layer digest (default flavour, stated domain). -/
+theorem roundtrip_ref_digest {R : Type} (parseRef : Str → Option R) (ref : Str) (pf : Int)
+    (children : List Desc) (i : Nat) (c : Desc) (r : R)
+    (hdom : TailOfLayers children i c) (hr : parseRef ref = some r) :
+    ∃ labels s, defaultLabelsAt ref pf children i = some labels ∧
+      readSource parseRef defaultKeys labels = some s ∧ s.name = r ∧ s.target = c.digest := by
+  obtain ⟨labels, s, h1, h2, h3, h4, _⟩ := default_roundtrip parseRef ref pf children i c r hdom hr
+  exact ⟨labels, s, h1, h2, h3, h4⟩
+
+/-- Same URLs for the layer: exactly the leading URLs that fit under the size limit (all of them when
+they fit), provided no URL contains a comma; a list of which nothing fits reads back as `[""]`. -/
+theorem roundtrip_target_urls {R : Type} (parseRef : Str → Option R) (ref : Str) (pf : Int)
+    (children : List Desc) (i : Nat) (c : Desc) (r : R)
+    (hdom : TailOfLayers children i c) (hr : parseRef ref = some r) (hc : ∀ u ∈ c.urls, ',' ∉ u) :
+    ∃ labels s, defaultLabelsAt ref pf children i = some labels ∧
+      readSource parseRef defaultKeys labels = some s ∧
+      ((fitCount kURLs 0 c.urls = 0 ∧ s.urls = [[]]) ∨
+       (0 < fitCount kURLs 0 c.urls ∧ s.urls = c.urls.take (fitCount kURLs 0 c.urls) ∧ s.urls <+: c.urls)) ∧
+      (c.urls ≠ [] → kURLs.length + (catComma c.urls).length ≤ maxSize → s.urls = c.urls) := by
+  obtain ⟨labels, s, h1, h2, _, _, h5, _⟩ := default_roundtrip parseRef ref pf children i c r hdom hr
+  refine ⟨labels, s, h1, h2, ?_, ?_⟩
+  · rw [h5]; exact urls_read_back kURLs c.urls hc
+  · intro hne hfit; rw [h5]; exact urls_exact_when_fit kURLs c.urls hc hne hfit
+
+/-- The neighbour list is a prefix, in manifest order, of the layers that follow (copies of the target
+digest skipped); every neighbour is one of those layers, paired with a prefix of ITS OWN URLs (never
+another layer's), provided no URL contains a comma. -/
+theorem neighbours_prefix {R : Type} (parseRef : Str → Option R) (ref : Str) (pf : Int)
+    (children : List Desc) (i : Nat) (c : Desc) (r : R)
+    (hdom : TailOfLayers children i c) (hr : parseRef ref = some r)
+    (hc : ∀ l ∈ children, ∀ u ∈ l.urls, ',' ∉ u) :
+    ∃ labels s, defaultLabelsAt ref pf children i = some labels ∧
+      readSource parseRef defaultKeys labels = some s ∧
+      (∃ n, n ≤ (children.drop (i + 1)).length ∧
+        s.neighbours.map (·.1) = (((children.drop (i + 1)).take n).map (·.digest)).filter (· ≠ c.digest)) ∧
+      ∀ p ∈ s.neighbours, ∃ (m : Nat) (l : Desc), (children.drop (i + 1))[m]? = some l ∧ l.digest = p.1 ∧
+        p.1 ≠ c.digest ∧ (p.2 = [[]] ∨ p.2 <+: l.urls) := by
+  obtain ⟨labels, s, h1, h2, _, _, _, n, _, hn, _, hd, hm⟩ :=
+    default_roundtrip parseRef ref pf children i c r hdom hr
+  refine ⟨labels, s, h1, h2, ⟨n, hn, hd⟩, ?_⟩
+  intro p hp
+  obtain ⟨m, l, _, hl, hne, rfl⟩ := hm p hp
+  refine ⟨m, l, hl, rfl, hne, ?_⟩
+  have hlm : l ∈ children := List.mem_of_mem_drop (List.mem_of_getElem? hl)
+  rcases urls_read_back (urlsKey (m + 1)) l.urls (hc l hlm) with ⟨_, h⟩ | ⟨_, _, h⟩
+  · exact Or.inl h
+  · exact Or.inr h
+
+/-- The prefetch-size label round-trips (default flavour, ALL manifests). -/
+theorem prefetch_roundtrip (dflt : Int) (ref : Str) (pf : Int) (children : List Desc) (i : Nat) (c : Desc)
+    (hi : children[i]? = some c) (hl : c.isLayer = true) (hpf : -(2 ^ 63) ≤ pf ∧ pf < 2 ^ 63) :
+    ∃ labels, defaultLabelsAt ref pf children i = some labels ∧ mountPrefetch dflt labels = pf := by
+  obtain ⟨g1, g2, g3, g4, _⟩ := defaultLabels_fixed ref pf c (children.drop i)
+  refine ⟨defaultLabels ref pf c (children.drop i), ?_, ?_⟩
+  · unfold defaultLabelsAt defaultWriter
+    simp only [if_true]
+    rw [defaultChildren_getElem ref pf children i c hi, if_pos hl]; rfl
+  · unfold mountPrefetch; rw [g3]; simp only; rw [parseInt64_intDec pf hpf]
+
 /-! ## prefetch-size label -/
 
 /-- `strconv.ParseInt(fmt.Sprintf("%d", n), 10, 64)` gives back `n` for every int64. -/
